@@ -333,5 +333,10 @@ for _pid in ('C05', 'C01'):
         PROPS[_pid]['direct_files'] = list(PROPS[_pid]['direct_files']) + ['c05faults']
 
 # C16: a stalled transmission is not made up for by a burst (TestC16Stall)
-PROPS['C16']['tests'] = list(PROPS['C16']['tests']) + ['TestC16Stall']
+# every client message is assembled by layer.IPv4 / layer.UDP and their checksum routine: the assembler cases of C13 (all payload lengths,
+# carry windows of the one's complement sum) are part of what "valid checksums" of C16 rests on - a template only varies xid and addresses
+PROPS['C16']['tests'] = list(PROPS['C16']['tests']) + ['TestC16Stall', 'TestC13']
+PROPS['C16']['case_files'] = list(PROPS['C16']['case_files']) + ['c13']
+PROPS['C16']['monitor_tags'] = set(PROPS['C16']['monitor_tags']) | {1310, 1311, 1313}
+PROPS['C16']['panic_is_violation'] = set(PROPS['C16'].get('panic_is_violation', ())) | {1301}
 PROPS['C16']['direct_files'] = list(PROPS['C16']['direct_files']) + ['c16stall']
